@@ -1,4 +1,6 @@
 import OdakModel.Generated.Loops
+import OdakProofs.Lemmas.GenGeometry
+import OdakModel.Parametric
 import OdakProofs.Lemmas.Geometry
 import Mathlib.Analysis.SpecificLimits.Basic
 
@@ -126,4 +128,209 @@ theorem C12_every_raytracing_while_capped_or_proved :
     ∀ l ∈ whileLoops, (l.file.startsWith "odak/raytracing" || l.file.startsWith "odak/learn/raytracing") = true →
       l.capped = true ∨ (l.fn = "refract" ∧ refractFlagsTir = true) := by
   decide +kernel
+end Odak
+
+/-! ## The refraction root finder over the definitions REGENERATED from the Python source
+  (`Generated/GeometryGen.lean`, tied to the model by `Lemmas/GenGeometry.lean`) -/
+namespace Odak
+open Odak.Gen
+
+/-- the generated flag test of `refract` is exactly the model's total-internal-reflection test, evaluated on the generated
+    `a` and `b`: when it fires the model returns `.tir` for every fuel; the value stored is NaN -/
+theorem C12_gen_tir_flagged (mu err : ℝ) (v n : Ray ℝ) (fuel : Nat) :
+    (refrTirT (refrA_T mu v n) (refrB_T mu n) = true ↔ (refrA mu v.d n.d) ^ 2 - refrB mu n.d < 0) ∧
+    (refrTirT (refrA_T mu v n) (refrB_T mu n) = true → refractTau mu err v.d n.d fuel = .tir) := by
+  have h : refrTirT (refrA_T mu v n) (refrB_T mu n) = true ↔ (refrA mu v.d n.d) ^ 2 - refrB mu n.d < 0 := by
+    rw [refrTirT_eq, refrA_T_eq, refrB_T_eq, decide_eq_true_eq, num_sq, ← pow_two]
+  exact ⟨h, fun hf => C12_tir_flagged mu err v.d n.d fuel (h.mp hf)⟩
+
+/-- …and without the flag the generated loop body could not exit: every new `eps` is at least `√(b - a²)` -/
+theorem C12_gen_tir_would_not_terminate (a b t : ℝ) (hD : a ^ 2 - b < 0) (hs : t + a ≠ 0) :
+    Real.sqrt (b - a ^ 2) ≤ refrEpsT a b t := by
+  rw [refrEpsT_eq, num_abs, abs_sub_comm]
+  exact C12_tir_would_not_terminate a b t hD hs
+
+/-- the iterates of the generated loop body from the generated start value are the model's Newton iterates; without total
+    internal reflection each generated `eps` is at most half the previous one -/
+theorem C12_gen_newton_step_halves (a b : ℝ) (hD : 0 ≤ a ^ 2 - b) (ha : a ≠ 0) (k : Nat) :
+    (refrStepT a b)^[k] (refrStartT a b) = refrIter a b k ∧
+    refrEpsT a b (refrIter a b (k + 1)) ≤ refrEpsT a b (refrIter a b k) / 2 ∧
+    refrEps0T (1 : ℝ) = 2 := by
+  have hf : refrStepT a b = refrStep a b := funext (refrStepT_eq a b)
+  refine ⟨by rw [hf, refrStartT_eq]; rfl, ?_, by rw [refrEps0T_eq]; simp⟩
+  rw [refrEpsT_eq, refrEpsT_eq, num_abs, num_abs, ← refrIter_succ, ← refrIter_succ, abs_sub_comm,
+    abs_sub_comm (refrIter a b k)]
+  exact refrIter_step_halves hD ha k
+
+end Odak
+
+/-! ## NumPy `intersect_parametric` (secant iteration of `intersect_w_sphere` / `intersect_w_cylinder`)
+  Model: `OdakModel/Parametric.lean` – the loop by hand, its body, guard, start values and defaults regenerated.
+  The statements that do not mention ℝ hold for EVERY scalar instance (also for the `Float` the driver runs). -/
+namespace Odak
+open Odak.Gen
+
+section anyScalar
+variable {α : Type} [Num α]
+
+/-- after one pass both entries of `error` are the surface function at the returned `point` -/
+theorem secantPass_error (f : Vec3 α → α) (ray : Ray α) (s : SecantState α) :
+    (secantPass f ray s).1.e1 = f (secantPass f ray s).2 ∧ (secantPass f ray s).1.e0 = f (secantPass f ray s).2 :=
+  ⟨rfl, rfl⟩
+
+theorem paramLoop_spec (f : Vec3 α → α) (ray : Ray α) (target : α) (limit : Nat) :
+    ∀ (m iter : Nat) (s : SecantState α), limit + 1 - iter = m → iter ≤ limit →
+      iter < (paramLoop f ray target limit iter s).iters ∧
+      (paramLoop f ray target limit iter s).iters ≤ limit + 1 ∧
+      (∀ dist pt k, paramLoop f ray target limit iter s = .hit dist pt k →
+        k ≤ limit ∧ parametricGuardN (f pt) (f pt) target = false ∧ Num.isNaN (Vec3.compSum pt) = false ∧
+        ∃ s0 : SecantState α, (secantPass f ray s0).2 = pt ∧ (secantPass f ray s0).1.d1 = dist) ∧
+      (∀ k, paramLoop f ray target limit iter s = .miss .limit k → k = limit + 1) ∧
+      (∀ k, paramLoop f ray target limit iter s = .miss .nan k →
+        k ≤ limit ∧ ∃ s0 : SecantState α, Num.isNaN (Vec3.compSum (secantPass f ray s0).2) = true) ∧
+      paramLoop f ray target limit iter s ≠ .unbound := by
+  intro m
+  induction m with
+  | zero => intro iter s hm hi; omega
+  | succ m ih =>
+    intro iter s hm hi
+    rw [paramLoop]
+    by_cases h1 : limit < iter + 1
+    · have : iter = limit := by omega
+      subst this
+      simp [h1, ParamResult.iters]
+    · by_cases h2 : Num.isNaN (Vec3.compSum (secantPass f ray s).2) = true
+      · rw [if_neg h1, if_pos h2]
+        simp only [ParamResult.iters]
+        refine ⟨by omega, by omega, by simp, by simp, ?_, by simp⟩
+        intro k hk
+        simp only [ParamResult.miss.injEq, true_and] at hk
+        exact ⟨by omega, s, h2⟩
+      · by_cases h3 : parametricGuardN (secantPass f ray s).1.e0 (secantPass f ray s).1.e1 target = true
+        · rw [if_neg h1, if_neg h2, if_pos h3]
+          obtain ⟨a, b, c, d, e, g⟩ := ih (iter + 1) (secantPass f ray s).1 (by omega) (by omega)
+          exact ⟨by omega, b, c, d, e, g⟩
+        · rw [if_neg h1, if_neg h2, if_neg h3]
+          simp only [ParamResult.iters]
+          refine ⟨by omega, by omega, ?_, by simp, by simp, by simp⟩
+          intro dist pt k hk
+          simp only [ParamResult.hit.injEq] at hk
+          obtain ⟨hd, hp, hk⟩ := hk
+          subst hp
+          refine ⟨by omega, ?_, by simpa using h2, s, rfl, hd⟩
+          rw [(secantPass_error f ray s).1, (secantPass_error f ray s).2] at h3
+          simpa using h3
+
+/-- (1) for every surface function, every ray, every tolerance and every limit the model returns after at most `limit + 1`
+    passes of the loop body -/
+theorem C12_parametric_bounded (f : Vec3 α → α) (ray : Ray α) (target : α) (limit : Nat) :
+    (intersectParametricWith f ray target limit).iters ≤ limit + 1 := by
+  unfold intersectParametricWith
+  split_ifs
+  · exact (paramLoop_spec f ray target limit _ 0 secantInit rfl (Nat.zero_le _)).2.1
+  · simp [ParamResult.iters]
+
+/-- (2) what a hit guarantees, exactly: it was reached within the limit; the loop guard is false for the surface function at
+    the returned POINT; that point is not NaN; and the point and the returned distance come out of the same pass of the body –
+    the point is where the kernel evaluated (the previous `distance[1]`), the distance is the secant update of that pass -/
+theorem C12_parametric_hit (f : Vec3 α → α) (ray : Ray α) (target : α) (limit : Nat) (dist : α) (pt : Vec3 α) (k : Nat)
+    (h : intersectParametricWith f ray target limit = .hit dist pt k) :
+    1 ≤ k ∧ k ≤ limit ∧ parametricGuardN (f pt) (f pt) target = false ∧ Num.isNaN (Vec3.compSum pt) = false ∧
+    ∃ s0 : SecantState α, (secantPass f ray s0).2 = pt ∧ (secantPass f ray s0).1.d1 = dist := by
+  unfold intersectParametricWith at h
+  split_ifs at h
+  obtain ⟨a, _, c, _⟩ := paramLoop_spec f ray target limit _ 0 secantInit rfl (Nat.zero_le _)
+  obtain ⟨c1, c2, c3, c4⟩ := c dist pt k h
+  rw [h] at a
+  exact ⟨a, c1, c2, c3, c4⟩
+
+/-- (3) when the limit is reached (`limit + 1` passes) the result is the miss value `(False, False)`, never the last
+    iterate; a hit or a NaN exit happens within `limit` passes; the limit exit happens after exactly `limit + 1` -/
+theorem C12_parametric_limit_is_miss (f : Vec3 α → α) (ray : Ray α) (target : α) (limit : Nat) :
+    ((intersectParametricWith f ray target limit).iters = limit + 1 →
+      intersectParametricWith f ray target limit = .miss .limit (limit + 1)) ∧
+    (∀ k, intersectParametricWith f ray target limit = .miss .limit k → k = limit + 1) ∧
+    (∀ k, intersectParametricWith f ray target limit = .miss .nan k → k ≤ limit) ∧
+    (∀ dist pt k, intersectParametricWith f ray target limit = .hit dist pt k → k ≤ limit) := by
+  unfold intersectParametricWith
+  split_ifs
+  · obtain ⟨a, b, c, d, e, g⟩ := paramLoop_spec f ray target limit _ 0 secantInit rfl (Nat.zero_le _)
+    refine ⟨?_, d, fun k hk => (e k hk).1, fun dist pt k hk => (c dist pt k hk).1⟩
+    intro hit
+    cases hr : paramLoop f ray target limit 0 secantInit with
+    | hit dist pt k => have := (c dist pt k hr).1; rw [hr] at hit; simp [ParamResult.iters] at hit; omega
+    | miss why k =>
+      cases why with
+      | limit => rw [d k hr]
+      | nan => have := (e k hr).1; rw [hr] at hit; simp [ParamResult.iters] at hit; omega
+    | unbound => exact absurd hr g
+  · simp [ParamResult.iters]
+
+end anyScalar
+
+/-- (2) over ℝ: at a hit the residual of the surface function at the returned point is at most the tolerance; the point
+    lies on the ray at some parameter `dprev`; the returned distance is NOT `dprev` but the absolute value of the secant
+    update made in the same pass, `|dprev - f(pt) (dprev - d0)/(f(pt) - e0)|` -/
+theorem C12_parametric_hit_residual (f : Vec3 ℝ → ℝ) (ray : Ray ℝ) (target : ℝ) (limit : Nat) (dist : ℝ) (pt : Vec3 ℝ) (k : Nat)
+    (h : intersectParametricWith f ray target limit = .hit dist pt k) :
+    |f pt| ≤ target ∧ k ≤ limit ∧
+    ∃ d0 dprev e0 : ℝ, pt = ray.o + Vec3.smul dprev ray.d ∧ dist = |dprev - f pt * (dprev - d0) / (f pt - e0)| := by
+  obtain ⟨_, hk, hg, _, s0, hp, hd⟩ := C12_parametric_hit f ray target limit dist pt k h
+  refine ⟨?_, hk, s0.d0, s0.d1, s0.e0, ?_, ?_⟩
+  · rw [parametricGuardN_eq] at hg
+    simpa using hg
+  · rw [← hp]; simp only [secantPass, kernelParametricN_eq]
+  · rw [← hd, ← hp]; simp only [secantPass, kernelParametricN_eq, secantUpdateN_eq]
+
+/-- over ℝ the NaN exit is never taken, and the guard is false on entry (Python: unbound `point`) iff `100 ≤ target` -/
+theorem C12_parametric_real_exits (f : Vec3 ℝ → ℝ) (ray : Ray ℝ) (target : ℝ) (limit : Nat) :
+    (∀ k, intersectParametricWith f ray target limit ≠ .miss .nan k) ∧
+    (intersectParametricWith f ray target limit = .unbound ↔ 100 ≤ target) := by
+  have hinit : parametricGuardN (secantInit (α := ℝ)).e0 (secantInit (α := ℝ)).e1 target = decide (target < 100) := by
+    rw [parametricGuardN_eq]
+    simp only [secantInit, parametricInitN_eq]
+    norm_num
+  constructor
+  · intro k hk
+    unfold intersectParametricWith at hk
+    split_ifs at hk
+    obtain ⟨_, s0, hs⟩ := (paramLoop_spec f ray target limit _ 0 secantInit rfl (Nat.zero_le _)).2.2.2.2.1 k hk
+    rw [isNaN_real] at hs
+    exact Bool.false_ne_true hs
+  · unfold intersectParametricWith
+    rw [hinit]
+    by_cases ht : target < 100
+    · simp only [ht, decide_true, if_true]
+      constructor
+      · intro h; exact absurd h (paramLoop_spec f ray target limit _ 0 secantInit rfl (Nat.zero_le _)).2.2.2.2.2
+      · intro h; linarith
+    · simp only [ht, decide_false, Bool.false_eq_true, if_false, true_iff]
+      linarith
+
+/-- [regenerated control structure of `intersect_parametric`] the loop modelled by `paramLoop` is the loop of the source:
+    guard on `error[1]`; kernel at `distance[1]` overwriting `error[1]`; secant update of both lists; counter; limit exit
+    with `(False, False)`; NaN exit with `(False, False)`; after the loop the normal at `point` and `distance[1]`;
+    and the defaults are those the model uses -/
+theorem C12_gen_parametric_loop_shape :
+    parametricLoopShape = [
+      "while np.abs(np.max(np.asarray(error[1]))) > target_error",
+      "error[1], point = intersection_kernel_for_parametric_surfaces(distance[1], ray, parametric_surface, surface_function)",
+      "distance, error = propagate_parametric_intersection_error(distance, error)",
+      "iter_no += 1",
+      "if iter_no > iter_no_limit: return (False, False)",
+      "if np.isnan(np.sum(point)): return (False, False)",
+      "after: normal = surface_normal_function(point, parametric_surface)",
+      "after: return (distance[1], normal)"] ∧
+    parametricIterLimitN = 100000 ∧ (parametricTargetErrorN : ℝ) = 1 / 100000000 :=
+  ⟨by decide, rfl, parametricTargetErrorN_eq⟩
+
+/-- with the defaults of the source: at most 100001 passes, and a hit has residual at most `1e-8` at the returned point -/
+theorem C12_parametric_defaults (f : Vec3 ℝ → ℝ) (ray : Ray ℝ) :
+    (intersectParametric f ray).iters ≤ 100001 ∧
+    ∀ dist pt k, intersectParametric f ray = .hit dist pt k → |f pt| ≤ 1 / 100000000 := by
+  unfold intersectParametric
+  refine ⟨C12_parametric_bounded f ray _ _, fun dist pt k h => ?_⟩
+  rw [← parametricTargetErrorN_eq]
+  exact (C12_parametric_hit_residual f ray _ _ dist pt k h).1
+
 end Odak
